@@ -374,7 +374,11 @@ def check(model: Model, run: Run) -> None:
     wsite, wclass, wcond = writer_escape(model)
     wfi = model.functions[wsite.func]
     fmt = callback_format(model, wfi, wsite.callback)
-    ok = fmt is not None and fmt[0] == "\\" and fmt[1] in ("02x", "02X")
+    if fmt is None:
+        # the callback is not one of the forms read here (f-string / % / str.format of ord(m.group(0))): a precomputed table or a helper.
+        # Nothing is known about what it writes - that is not a finding about the escapes
+        raise AnalysisError(f"{wsite.func}: the escaping callback `{norm(wsite.callback)[:40]}` is not written as a format of ord(<match>): the escapes it produces are not read")
+    ok = fmt[0] == "\\" and fmt[1] in ("02x", "02X")
     run.ob("H1-escape-format", ok, {"format": fmt})
     if not ok:
         run.fail(Finding("H1-escape-format", wsite.func, f"format={fmt}", "the qdstring escape is not written as backslash + two hex digits", model.loc(SCHEMA, wsite.node)))
